@@ -18,6 +18,10 @@ CHECKS = {
    text="Two real nodes run the real PASE initiator and responder over the adversarial network and virtual clock. Exhaustive within the catalogs: passcode pairs with and without an open window; a second concurrent initiator; 19/20/21 consecutive wrong attempts; every single attacker move of the C01 catalog on every PASE datagram (thorough: every bit); nine special / invalid curve points in place of pA and pB; the window state machine (close, close-and-reopen, expiry) placed before the delivery of each handshake datagram (thorough: crossed with each loss). Oracle: a session comes into existence only while a window is open, only with the right passcode and an unmodified handshake; keys agree when both ends hold one; failed proofs are counted and the window is revoked after twenty; the node is advertised as commissionable iff a window is open.",
    note="Cryptographic hardness assumed; expiry polling by InteractionModel::run is outside this harness (an expired window closes at the next PASE request).",
    tech="exhaustive single-fault injection over the message/field alphabet and window-action placement on the real two-node handshake"),
+ "C03": dict(cat="exploration",
+   text="On two real nodes with pre-established CASE / PASE sessions (plus a second, differently keyed live session at each end), every datagram of an honest conversation - request of every length of a boundary catalog, reliable and not, the reply with piggy-backed acknowledgement, standalone acknowledgements - is attacked before delivery with every single-bit flip of the whole datagram, every truncation, two extensions, another live session's id, counter +-1 and delivery to the opposite direction; after each injection the destination's session-table projection (receive windows, transmit counters, exchange slots, keys, flags) must be bit-identical and nothing may reach the application; the untouched datagram must then be accepted with identical protocol id, opcode and payload.",
+   note="Unicast CASE and PASE sessions only (group sessions not swept); header shapes limited to what the sending API produces; replay of unaltered datagrams belongs to C04/C09.",
+   tech="bounded exhaustive input (mutation) enumeration on the real receive path with a state-invariance oracle"),
  "C04": dict(cat="model_checking",
    text="All histories of offered counters up to the stated depth over a relative boundary alphabet are executed on the real receive window (Session / GroupCtrStore) and compared step by step with a set-of-accepted-counters reference; states deduplicated on a canonical projection.",
    note="Assumes the window is only reached through post_recv; absolute counter values matter only through their distance to 0 / 2^32-1 (capped at 64); bounded depth.",
